@@ -38,6 +38,7 @@
 #include <assert.h>
 
 #include "category.h"
+#include <booster/verif_trace.h>
 
 namespace booster {
 namespace aio {
@@ -201,6 +202,24 @@ public:
 		}
 	};
 	
+#ifdef CPPCMS_VERIF
+	// trace helpers; all callers hold data_mutex_
+	static long verif_ms(ptime const &t)
+	{
+		static long long base = ptime::milliseconds(ptime::now());
+		return long(ptime::milliseconds(t) - base);
+	}
+	static unsigned long verif_id(void const *p)
+	{
+		return (unsigned long)((size_t)(p) & 0x3FFFFFFF);
+	}
+	void verif_enq(char const *why,int fd = -1)
+	{
+		completion_handler &c = dispatch_queue_.back();
+		BOOSTER_VERIF_EMIT("\"e\":\"Enq\",\"p\":%lu,\"why\":\"%s\",\"ec\":%d,\"fd\":%d,\"polling\":%d,\"io\":%lu",
+			verif_id(c.h.get()),why,c.e.value(),fd,int(polling_),verif_id(this));
+	}
+#endif
 	void set_io_event(native_type fd,int event,event_handler const &h)
 	{
 		if(event != io_events::in && event !=io_events::out)
@@ -245,6 +264,7 @@ public:
 	{
 		lock_guard l(data_mutex_);
 		stop_ = true;
+		BOOSTER_VERIF_EMIT("\"e\":\"Stop\",\"polling\":%d,\"io\":%lu",int(polling_),verif_id(this));
 		if(polling_)
 			wake();
 	}
@@ -258,6 +278,9 @@ public:
 	{
 		lock_guard l(data_mutex_);
 		dispatch_queue_.push_back(completion_handler(h));
+#ifdef CPPCMS_VERIF
+		verif_enq("post");
+#endif
 		if(polling_)
 			wake();
 	}
@@ -265,6 +288,9 @@ public:
 	{
 		lock_guard l(data_mutex_);
 		dispatch_queue_.push_back(completion_handler(h,e));
+#ifdef CPPCMS_VERIF
+		verif_enq("post");
+#endif
 		if(polling_)
 			wake();
 	}
@@ -272,6 +298,9 @@ public:
 	{
 		lock_guard l(data_mutex_);
 		dispatch_queue_.push_back(completion_handler(h,e,n));
+#ifdef CPPCMS_VERIF
+		verif_enq("post");
+#endif
 		if(polling_)
 			wake();
 	}
@@ -318,6 +347,8 @@ public:
 			timer_events_index_[pos] = timer_events_.insert(ev);
 			break;
 		}
+		BOOSTER_VERIF_EMIT("\"e\":\"SetTimer\",\"p\":%lu,\"id\":%d,\"dl\":%ld,\"polling\":%d,\"first\":%d,\"io\":%lu",
+			verif_id(h.get_pointer().get()),ev.second.event_id,verif_ms(point),int(polling_),int(timer_events_.begin()->first >= point),verif_id(this));
 
 		if(polling_ && timer_events_.begin()->first >= point)
 			wake();
@@ -328,6 +359,10 @@ public:
 	{
 		lock_guard l(data_mutex_);
 
+#ifdef CPPCMS_VERIF
+		if(timer_events_index_.at(event_id)==timer_events_.end())
+			BOOSTER_VERIF_EMIT("\"e\":\"CancelTimer\",\"id\":%d,\"found\":false,\"io\":%lu",event_id,verif_id(this));
+#endif
 		if(timer_events_index_.at(event_id)==timer_events_.end())
 			return;
 
@@ -337,6 +372,10 @@ public:
 		dispatch_queue_.push_back(evdisp);
 		timer_events_.erase(evptr);
 		timer_events_index_[event_id]=timer_events_.end();
+#ifdef CPPCMS_VERIF
+		BOOSTER_VERIF_EMIT("\"e\":\"CancelTimer\",\"id\":%d,\"found\":true,\"io\":%lu",event_id,verif_id(this));
+		verif_enq("timer_cancel");
+#endif
 
 		if(polling_)
 			wake();
@@ -409,6 +448,7 @@ private:
 			io_data &cont=self_->map_[fd];
 			if(cont.current_event == 0 && !cont.readable && !cont.writeable) {
 				self_->map_.erase(fd);
+				BOOSTER_VERIF_EMIT("\"e\":\"CancelIoSkip\",\"fd\":%d,\"io\":%lu",int(fd),verif_id(self_));
 				return false;
 			}
 			return true;
@@ -422,11 +462,24 @@ private:
 			system::error_code e;
 			self_->reactor_->remove(fd,e);
 			e = system::error_code(aio_error::canceled,aio_error_cat);
+			BOOSTER_VERIF_EMIT("\"e\":\"CancelIo\",\"fd\":%d,\"io\":%lu",int(fd),verif_id(self_));
+#ifdef CPPCMS_VERIF
+			bool verif_in = cont.readable ? true : false;
+			bool verif_out = cont.writeable ? true : false;
+#endif
 			// Maybe it is closed
 			if(cont.readable)
 				self_->dispatch_queue_.push_back(completion_handler(cont.readable,e));
+#ifdef CPPCMS_VERIF
+			if(verif_in)
+				self_->verif_enq("io_cancel",fd);
+#endif
 			if(cont.writeable)
 				self_->dispatch_queue_.push_back(completion_handler(cont.writeable,e));
+#ifdef CPPCMS_VERIF
+			if(verif_out)
+				self_->verif_enq("io_cancel",fd);
+#endif
 			self_->map_.erase(fd);
 		}
 	};
@@ -451,6 +504,9 @@ private:
 				system::error_code e(EBADF,syscat);
 				#endif
 				self_->dispatch_queue_.push_back(completion_handler(h,e));
+#ifdef CPPCMS_VERIF
+				self_->verif_enq("io_badfd",fd);
+#endif
 				return;
 			}
 
@@ -463,9 +519,14 @@ private:
 					self_->map_[fd].readable = h;
 				else
 					self_->map_[fd].writeable = h;
+				BOOSTER_VERIF_EMIT("\"e\":\"SetIo\",\"p\":%lu,\"fd\":%d,\"ev\":%d,\"io\":%lu",
+					verif_id(h.get_pointer().get()),int(fd),event,verif_id(self_));
 			}
 			else {
 				self_->dispatch_queue_.push_back(completion_handler(h,e));
+#ifdef CPPCMS_VERIF
+				self_->verif_enq("io_select_failed",fd);
+#endif
 			}
 		}
 	};
@@ -511,6 +572,9 @@ private:
 		lock_guard l(data_mutex_);
 		if(polling_ || !reactor_.get()) {
 			dispatch_queue_.push_back(completion_handler(f));
+#ifdef CPPCMS_VERIF
+			verif_enq("defer");
+#endif
 			if(reactor_.get())
 				wake();
 		}
@@ -525,6 +589,9 @@ private:
 			return;
 		if(polling_ || !reactor_.get()) {
 			dispatch_queue_.push_back(completion_handler(f));
+#ifdef CPPCMS_VERIF
+			verif_enq("defer");
+#endif
 			if(reactor_.get())
 				wake();
 		}
@@ -544,10 +611,12 @@ private:
 		}
 
 		int counter = dispatch_queue_.size();
+		BOOSTER_VERIF_EMIT("\"e\":\"RunOne\",\"q\":%d,\"stop\":%d,\"io\":%lu",counter,int(stop_),verif_id(this));
 		while(!stop_ && !dispatch_queue_.empty() && counter > 0) {
 			completion_handler exec;
 			exec.swap(dispatch_queue_.front());
 			dispatch_queue_.pop_front();
+			BOOSTER_VERIF_EMIT("\"e\":\"Deq\",\"p\":%lu,\"ec\":%d,\"io\":%lu",verif_id(exec.h.get()),exec.e.value(),verif_id(this));
 			
 			data_mutex_.unlock();
 			try {
@@ -569,6 +638,10 @@ private:
 			timer_events_index_[evptr->second.event_id] = timer_events_.end();
 			completion_handler disp(evptr->second.h,system::error_code());
 			dispatch_queue_.push_back(disp);
+			BOOSTER_VERIF_EMIT("\"e\":\"TimerFire\",\"id\":%d,\"now\":%ld,\"dl\":%ld,\"io\":%lu",evptr->second.event_id,verif_ms(now),verif_ms(evptr->first),verif_id(this));
+#ifdef CPPCMS_VERIF
+			verif_enq("timer_fire");
+#endif
 			timer_events_.erase(evptr);
 		}
 
@@ -595,6 +668,7 @@ private:
 		{
 			system::error_code poll_error;
 			polling_ = true;
+			BOOSTER_VERIF_EMIT("\"e\":\"PollBegin\",\"wait\":%ld,\"q\":%d,\"io\":%lu",long(ptime::milliseconds(wait_time)),int(dispatch_queue_.size()),verif_id(this));
 			try {
 				data_mutex_.unlock();
 				n = reactor_->poll(evs,evs_size,int(ptime::milliseconds(wait_time)),poll_error);
@@ -606,6 +680,7 @@ private:
 			}
 			data_mutex_.lock();
 			polling_ = false;
+			BOOSTER_VERIF_EMIT("\"e\":\"PollEnd\",\"n\":%d,\"q\":%d,\"io\":%lu",n,int(dispatch_queue_.size()),verif_id(this));
 		
 			//
 			// We may get EBADF, so if we do not handle it we may loop
@@ -658,12 +733,24 @@ private:
 			
 			cont.current_event = new_events;
 
+#ifdef CPPCMS_VERIF
+			bool verif_in = cont.readable && (new_events & reactor::in) == 0;
+			bool verif_out = cont.writeable && (new_events & reactor::out) == 0;
+#endif
 			if(cont.readable && (new_events & reactor::in) == 0) {
 				dispatch_queue_.push_back(completion_handler(cont.readable,dispatch_error));
 			}
+#ifdef CPPCMS_VERIF
+			if(verif_in)
+				verif_enq(dispatch_error ? "io_error" : "io_ready",evs[i].fd);
+#endif
 			if(cont.writeable && (new_events & reactor::out) == 0) {
 				dispatch_queue_.push_back(completion_handler(cont.writeable,dispatch_error));
 			}
+#ifdef CPPCMS_VERIF
+			if(verif_out)
+				verif_enq(dispatch_error ? "io_error" : "io_ready",evs[i].fd);
+#endif
 			
 			if(new_events == 0)
 				map_.erase(evs[i].fd);
